@@ -174,6 +174,57 @@ func c05Dec(c *Ctx, w int, input []byte, kind string) {
 	c.Emit(op, []string{hx(input), kind}, obs)
 }
 
+// c05Dec2: two consecutive decodes from ONE reader into ONE destination that already holds `prior`; with
+// limit >= 0 the reader is an *io.LimitedReader over the chosen base reader (a frame boundary: nothing past it may
+// be touched, by either decode). The value is observed after a successful decode only.
+func c05Dec2(c *Ctx, w int, input []byte, kind string, limit int, prior uint64) {
+	br := bytes.NewReader(input)
+	var r io.Reader = br
+	if kind == "rd" {
+		r = plainReader{br}
+	} else if kind == "st" {
+		r = stallReader{br, new(int)}
+	}
+	if limit >= 0 {
+		r = &io.LimitedReader{R: r, N: int64(limit)}
+	}
+	obs := ""
+	p, _ := guard(func() {
+		v32 := pk.VarInt(int32(uint32(prior)))
+		v64 := pk.VarLong(int64(prior))
+		for i := 0; i < 2; i++ {
+			var n int64
+			var err error
+			var val string
+			if w == 32 {
+				n, err = v32.ReadFrom(r)
+				val = fmt.Sprintf("%08x", uint32(v32))
+			} else {
+				n, err = v64.ReadFrom(r)
+				val = fmt.Sprintf("%016x", uint64(v64))
+			}
+			if err != nil {
+				obs += "err;"
+			} else {
+				obs += fmt.Sprintf("ok:%s:%d;", val, n)
+			}
+		}
+		obs += " rest=" + hx(input[len(input)-br.Len():])
+	})
+	if p {
+		obs = "panic"
+	}
+	op := "varint.dec2"
+	if w == 64 {
+		op = "varlong.dec2"
+	}
+	lim := "-"
+	if limit >= 0 {
+		lim = strconv.Itoa(limit)
+	}
+	c.Emit(op, []string{hx(input), kind, lim, fmt.Sprintf("%x", prior)}, obs)
+}
+
 func replayC05(c *Ctx, op string, args []string) bool {
 	switch op {
 	case "varint.enc", "varlong.enc":
@@ -183,6 +234,17 @@ func replayC05(c *Ctx, op string, args []string) bool {
 			w = 64
 		}
 		c05Enc(c, w, v)
+	case "varint.dec2", "varlong.dec2":
+		w := 32
+		if op == "varlong.dec2" {
+			w = 64
+		}
+		lim := -1
+		if args[2] != "-" {
+			lim, _ = strconv.Atoi(args[2])
+		}
+		pr, _ := strconv.ParseUint(args[3], 16, 64)
+		c05Dec2(c, w, unhx(args[0]), args[1], lim, pr)
 	case "varint.nest", "varlong.nest":
 		o, _ := strconv.ParseUint(args[0], 16, 64)
 		i, _ := strconv.ParseUint(args[1], 16, 64)
@@ -251,6 +313,44 @@ func genC05(c *Ctx) {
 				o, in = o&0xffffffff, in&0xffffffff
 			}
 			c05Nest(c, w, o, in)
+		}
+	}
+	// two decodes from one reader into one (non-zero) destination, with and without a frame limit
+	for _, w := range []int{32, 64} {
+		kinds := []string{"br", "rd", "st"}
+		for i := 0; i < c.N(6000, 400000); i++ {
+			a := c.R.Uint64() >> uint(c.R.Intn(64))
+			b := c.R.Uint64() >> uint(c.R.Intn(64))
+			prior := c.R.Uint64() >> uint(c.R.Intn(64))
+			if w == 32 {
+				a, b, prior = a&0xffffffff, b&0xffffffff, prior&0xffffffff
+			}
+			la, lb := leb(a), leb(b)
+			in := append(append([]byte{}, la...), lb...)
+			switch c.R.Intn(6) {
+			case 0: // second one runs on as a continuation run
+				in = append(in[:len(in)-1], in[len(in)-1]|0x80)
+				for t := c.R.Intn(4); t > 0; t-- {
+					in = append(in, byte(0x80|c.R.Intn(128)))
+				}
+			case 1:
+				in = in[:c.R.Intn(len(in)+1)]
+			}
+			for t := c.R.Intn(4); t > 0; t-- {
+				in = append(in, byte(c.R.Intn(256)))
+			}
+			limit := -1
+			switch c.R.Intn(5) {
+			case 0:
+				limit = len(la) + len(lb)
+			case 1:
+				limit = len(la) + c.R.Intn(len(lb)+1)
+			case 2:
+				limit = c.R.Intn(len(in) + 2)
+			case 3:
+				limit = len(la)
+			}
+			c05Dec2(c, w, in, kinds[i%3], limit, prior)
 		}
 	}
 	// decoders: exhaustive short inputs
